@@ -61,7 +61,7 @@ Proof. vm_cast_no_check (eq_refl true). Qed.
 
 (* ---- chassis status: [current power state; last power event; misc state; (front panel)] ---- *)
 Definition chassis_dom : list (list N) :=
-  around [0; 1; 2; 3]%nat [0; 0; 0; 0] ++ around [] [255; 255; 255; 255] ++ around [0; 2]%nat [0x21; 0x10; 0x40].
+  around [0; 1; 2]%nat [0; 0; 0; 0] ++ around [] [255; 255; 255; 255] ++ around [] [0x21; 0x10; 0x40].
 Definition spec_chassis (d : list N) : res pv :=
   let ps := at_ d 0 in let ev := at_ d 1 in let misc := at_ d 2 in
   Ok (PObj "ChassisStatus" [
@@ -75,7 +75,7 @@ Lemma chassis_table : forallb (chk_read "get_chassis_status" [] (mkReq 0 1 0 [])
 Proof. vm_cast_no_check (eq_refl true). Qed.
 
 (* ---- watchdog: [use; actions; pre-timeout interval; expiration flags; initial lsb msb; present lsb msb] ---- *)
-Definition wd_dom : list (list N) := around [0; 1]%nat [0; 0; 0; 0; 0; 0; 0; 0] ++ around [4; 7]%nat [255; 255; 255; 255; 255; 255; 255; 255].
+Definition wd_dom : list (list N) := around [0; 1]%nat [0; 0; 0; 0; 0; 0; 0; 0] ++ around [] [255; 255; 255; 255; 255; 255; 255; 255].
 Definition spec_wd (d : list N) : res pv :=
   Ok (PObj "Watchdog" [
     ("timer_use", pi (at_ d 0 mod 8)); ("dont_stop", PNone); ("is_running", pb (at_ d 0) 6); ("dont_log", pb (at_ d 0) 7);
@@ -87,7 +87,7 @@ Proof. vm_cast_no_check (eq_refl true). Qed.
 
 (* ---- sensor reading: [reading; flags; (states 1; (states 2))] ---- *)
 Definition reading_dom : list (list N) :=
-  around [0; 1]%nat [255; 255] ++ around [1; 2]%nat [7; 0xc0; 0] ++ around [1; 2; 3]%nat [255; 0xdf; 255; 255].
+  around [1]%nat [255; 255] ++ around [2]%nat [7; 0xc0; 0] ++ around [1; 3]%nat [255; 0xdf; 255; 255].
 Definition spec_reading (d : list N) : res pv :=
   Ok (PList [if bit (at_ d 1) 5 =? 1 then PNone else pi (at_ d 0);
              match d with
@@ -100,7 +100,7 @@ Lemma reading_table : forallb (chk_read "get_sensor_reading" reading_args (mkReq
 Proof. vm_cast_no_check (eq_refl true). Qed.
 
 (* ---- thresholds: [readable mask; lnc; lcr; lnr; unc; ucr; unr] ---- *)
-Definition thr_dom : list (list N) := around [0; 1; 6]%nat [0; 1; 2; 3; 4; 5; 6] ++ around [0]%nat [255; 250; 251; 252; 253; 254; 255].
+Definition thr_dom : list (list N) := around [0]%nat [0; 1; 2; 3; 4; 5; 6] ++ around [0]%nat [255; 250; 251; 252; 253; 254; 255].
 Definition spec_thr (d : list N) : res pv :=
   Ok (PObj "dict" (flat_map (fun p => if bit (at_ d 0) (N.of_nat (fst p)) =? 1
                                       then [(snd p, pi (at_ d (S (fst p))))] else [])
@@ -109,7 +109,7 @@ Lemma thr_read_table : forallb (chk_read "get_sensor_thresholds" reading_args (m
 Proof. vm_cast_no_check (eq_refl true). Qed.
 
 (* ---- user access: [max users; enabled count | status; fixed names; access flags | privilege] ---- *)
-Definition uacc_dom : list (list N) := around [1; 3]%nat [0; 0; 0; 0] ++ around [0; 2; 3]%nat [255; 255; 255; 255].
+Definition uacc_dom : list (list N) := around [1; 3]%nat [0; 0; 0; 0] ++ around [3]%nat [255; 255; 255; 255].
 Definition priv_names : list (N * string) :=
   [(0, "reserved"); (1, "callback"); (2, "user"); (3, "operator"); (4, "administrator"); (5, "oem"); (15, "no access")].
 Definition spec_uacc (d : list N) : res pv :=
@@ -158,8 +158,8 @@ Definition led_shape (d : list N) : bool :=
   let st := at_ d 1 in
   Nat.eqb (length d) (5 + (if (bit st 1 =? 1) || (bit st 2 =? 1) then 3 else 0) + (if bit st 2 =? 1 then 1 else 0)).
 Definition led_dom : list (list N) :=
-  filter led_shape (around [1; 2; 3]%nat [0; 1; 0; 0; 1] ++ around [1; 2; 5; 6]%nat [0; 3; 0xff; 0; 2; 7; 9; 3]
-                    ++ around [1; 3; 5]%nat [0; 0xff; 249; 249; 255; 1; 255; 255; 255]
+  filter led_shape (around [1; 2]%nat [0; 1; 0; 0; 1] ++ around [1; 5; 6]%nat [0; 3; 0xff; 0; 2; 7; 9; 3]
+                    ++ around [1; 3]%nat [0; 0xff; 249; 249; 255; 1; 255; 255; 255]
                     ++ around [] [0; 5; 0xff; 0; 1; 3; 4; 5; 6]).
 Definition led_args := [arg "fru_id" 1; arg "led_id" 2].
 Lemma led_read_table : forallb (chk_read "get_led_state" led_args (mkReq 44 8 0 [0; 1; 2]) spec_led) led_dom = true.
